@@ -68,3 +68,9 @@ claim("C11",
   "Trusted: go/ssa, SCCP evaluator, the shape contracts of regexp/syntax nodes (Sub arity, Rune pairs). Not covered: that the product/expansion loops enumerate exactly the language; literal rune conversion.",
   "static analysis: SCCP table extraction over regexp/syntax operators + dominance of the cap test + global-effect analysis",
   "DESIGN.md 4/C11")
+
+claim("C07",
+  "Decides the structure that makes substitution token-level: every kind of bound value maps to one fixed token regardless of its text (TokenType is a constant function, extracted by constant propagation); the token ring is reachable only through Parser.scan (who-may-call over resolved references, plus field-access sets for the scanner and parameter fields); scan substitutes after the underlying scan on every path (so push-back re-substitutes), only under a non-empty name and a successful lookup, takes token and literal from the same value, and the bound text flows only to the returned literal - it never reaches a scanner or parser; an unresolved placeholder always ends in an error. Equality with the inlined literal for every value (number formatting into the literal text and back) is a value property and is not covered.",
+  "Trusted: go/ssa, SCCP evaluator, reference graph (over-approximates calls). Not covered: formatting of float/integer values into literal text, SetTimeRange's re-lexing of a printed condition (quoted through QuoteString/QuoteIdent: C06).",
+  "static analysis: SCCP on TokenType methods, who-may-call / field-access sets, dominance and def-use checks in Parser.scan",
+  "DESIGN.md 4/C07")
